@@ -186,6 +186,10 @@ class Runner:
             ok2 = True if m_if_none == "absent-header" else (not m_if_none)
             passes = ok1 and ok2
         newb = mk(uid, "new")
+        if method == "PUT" and exists and cur_body and self.k % 2 == 0:
+            # the client sends again exactly what the server holds (a retry after a lost response): the precondition decides all the same
+            newb = cur_body
+            res.count("conditional_puts_of_the_stored_bytes")
         if method == "PUT":
             s, r = self.req("PUT", target, [("Content-Type", ctype)] + hs, newb)
         elif method == "PUT-invalid":
@@ -407,7 +411,8 @@ def check(tier, seed, t0):
     c = merged["counters"]
     guards = [("cases", c.get("cases", 0), int(n * 2.5)), ("cases expected executed", c.get("expected_executed", 0), 100), ("cases expected refused", c.get("expected_refused", 0), 100),
               ("cases expected 304", c.get("expected_304", 0), 20), ("cases expected 200", c.get("expected_200", 0), 20), ("store-API steps", c.get("store_steps", 0), 1000),
-              ("conditional PUTs whose body arrived while another PUT completed", c.get("slow_upload_cases", 0), 40)]
+              ("conditional PUTs whose body arrived while another PUT completed", c.get("slow_upload_cases", 0), 40),
+              ("conditional PUTs carrying exactly the stored bytes", c.get("conditional_puts_of_the_stored_bytes", 0), 40)]
     return common.finish(PROP, tier, seed, "exploration", merged, failures, RULE + f"; the cross product has {n} cases per (front end, backend)", t0, guards=guards,
                          assumptions=["RFC 7232: If-Match strong comparison, '*' = exists; unquoted values are not entity-tags (outcome not judged, effect judged)",
                                       "weak tags in If-None-Match and repeated header lines are outside the statement and not generated"],
